@@ -113,6 +113,10 @@ def run(rep, tier, seed, replay=None):
     combos = list(itertools.product("ste", "ste", OUTCOMES, OUTCOMES, [True, False]))
     for rel, b in chosen:
         cs = combos if tier == "thorough" else rnd.sample(combos, 60)
+        if tier != "thorough":
+            # always: every way the players section can fail followed by a VALID rules section (the failure must not reach it)
+            must = [(tp, tr, op, "valid", ck) for tp in "te" for tr in "te" for op in OUTCOMES if op != "valid" for ck in (True, False)]
+            cs = cs + [x for x in must if x not in cs]
         for tp, tr, op, orr, check in cs:
             cid = f"{b.id}{tp}{tr}{op[0]}{orr[0]}{'T' if check else 'F'}"
             cases.append(build(b, tp, tr, op, orr, check, cid))
